@@ -90,12 +90,27 @@ Foreign == { [id |-> 77, v |-> Num(TBool, 1)], [id |-> 78, v |-> Bin(<<1, 2, 3>>
              [id |-> 2, v |-> Limb(TI64, <<0, 0, 0, 9>>)],                                  \* known id, other wire type
              [id |-> 79, v |-> [t |-> TList, et |-> TStruct, e |-> << [t |-> TStruct, f |-> << [id |-> 1, v |-> Num(TI8, 3)] >>] >>]],
              [id |-> 80, v |-> [t |-> TMap, kt |-> TBinary, vt |-> TList, m |-> << [k |-> Bin(<<107>>), v |-> [t |-> TList, et |-> TBool, e |-> <<>>]] >>]] }
+\* unknown fields whose values are nested far deeper than any reader schema (C05: "of any type, size and nesting depth"):
+\* a chain of structs, of lists, and of struct / list / map alternating
+RECURSIVE NestS(_), NestL(_), NestMix(_)
+NestS(k) == IF k = 0 THEN [t |-> TStruct, f |-> <<>>] ELSE [t |-> TStruct, f |-> << [id |-> 1, v |-> NestS(k - 1)] >>]
+NestL(k) == IF k = 0 THEN [t |-> TList, et |-> TBool, e |-> << Num(TBool, 1) >>] ELSE [t |-> TList, et |-> TList, e |-> << NestL(k - 1) >>]
+NestMix(k) == IF k = 0 THEN Num(TI8, 7)
+              ELSE CASE k % 3 = 0 -> [t |-> TStruct, f |-> << [id |-> 2, v |-> NestMix(k - 1)] >>]
+                     [] k % 3 = 1 -> LET x == NestMix(k - 1) IN [t |-> TList, et |-> x.t, e |-> << x >>]
+                     [] OTHER -> LET x == NestMix(k - 1) IN [t |-> TMap, kt |-> TI8, vt |-> x.t, m |-> << [k |-> Num(TI8, 1), v |-> x] >>]
+DeepForeign == { [id |-> 90, v |-> NestS(d)] : d \in {63, 64, 65, 66, 130} } \cup { [id |-> 91, v |-> NestL(d)] : d \in {63, 64, 65, 66, 130} }
+               \cup { [id |-> 92, v |-> NestMix(d)] : d \in {64, 65, 66, 67, 131} }
 W0 == ToWireRef(WSchema, Ref(wd.name), v)
 \* (evolution and injection are independent concerns: injection is explored on the unevolved writer)
 DoInject == /\ Ready /\ inj = <<>> /\ wd.name = "Rd" /\ Len(wd.fields) >= 5 /\ SubSeq(wd.fields, 1, 5) = RdFields
             /\ \E pt \in Points(W0, <<>>), fx \in Foreign : inj' = << pt[1], pt[2], fx >>
             /\ UNCHANGED <<wd, v, stage>>
-Next == ChooseField \/ ChooseExtras \/ ChooseValue \/ DoInject
+\* deep values are injected at the top level only (first / last position) of the unevolved writer's full value
+DoInjectDeep == /\ Ready /\ inj = <<>> /\ wd.name = "Rd" /\ Len(wd.fields) = 5 /\ SubSeq(wd.fields, 1, 5) = RdFields /\ Len(W0.f) >= 3
+                /\ \E k \in {0, Len(W0.f)}, fx \in DeepForeign : inj' = << <<>>, k, fx >>
+                /\ UNCHANGED <<wd, v, stage>>
+Next == ChooseField \/ ChooseExtras \/ ChooseValue \/ DoInject \/ DoInjectDeep
 Spec == Init /\ [][Next]_vars
 
 WireTerm == IF inj = <<>> THEN W0 ELSE Inject(W0, inj[1], inj[2], inj[3])
@@ -108,7 +123,8 @@ CONSTANTS EmitMod, EmitPick
 RECURSIVE SumSeq(_)
 SumSeq(q) == IF q = <<>> THEN 0 ELSE Head(q) + SumSeq(Tail(q))
 CaseRec == [ tn |-> wd.name, wf |-> wd.fields, v |-> v, inj |-> inj, b |-> Bytes ]
-EmitCase == (Ready /\ (wd.name = "Rc" \/ (SumSeq(Bytes) + Len(Bytes)) % EmitMod = EmitPick)) => PrintT(<<"CASE", ToJson(CaseRec)>>)
+IsDeep == inj # <<>> /\ inj[3].id >= 90
+EmitCase == (Ready /\ (wd.name = "Rc" \/ IsDeep \/ (SumSeq(Bytes) + Len(Bytes)) % EmitMod = EmitPick)) => PrintT(<<"CASE", ToJson(CaseRec)>>)
 ASSUME PrintT(<<"RSCHEMA", ToJson(RSchema)>>)
 
 \* injected field 2 of another wire type must not disturb; a duplicate *matching* field would overwrite,
